@@ -269,6 +269,17 @@ ConnectSeq(T0, T, s, nstype, ifs) ==
          ELSE IF ConnectBlocked(T, s, i) # "" THEN Fail(T0, ConnectBlocked(T, s, i))
          ELSE ConnectSeq(T0, ConnectEls(T, s, i), s, nstype, Tail(ifs))
 
+\* as implemented (named deviation ServicePortNameCollision): the derived port / link names are not checked
+ConnectBlockedImpl(T, s, i) ==
+    IF ~Has(T, i) THEN QErr ELSE IF OwnerNode(T, i) = "" THEN TErr ELSE IF Peers(T, i) # {} THEN TErr ELSE ""
+RECURSIVE FailsAsImpl(_, _, _, _)
+FailsAsImpl(T, s, nstype, ifs) ==                       \* outcome class of the failing call when names are not checked ("" = would not fail)
+    IF ifs = <<>> THEN ""
+    ELSE LET i == Head(ifs) IN
+         IF Guardrail(T, nstype, i) THEN TErr
+         ELSE IF ConnectBlockedImpl(T, s, i) # "" THEN ConnectBlockedImpl(T, s, i)
+         ELSE FailsAsImpl(ConnectEls(T, s, i), s, nstype, Tail(ifs))
+
 AddService(T, name, nstype, ifs, site, rp) ==
     IF ~ValidName(name) THEN Fail(T, VErr)
     ELSE IF Named(T, NS, name) # {} THEN Fail(T, QErr)                \* service names are unique in the graph
@@ -320,8 +331,8 @@ RemoveFacility(T, name) ==
     IF Cardinality(Named(T, NN, name)) # 1 THEN Fail(T, QErr)
     ELSE LET n == CHOOSE p \in Named(T, NN, name) : TRUE IN
          IF ~IsFacility(T, n) THEN Fail(T, TErr)
-         ELSE IF TooManyPeers(T, NodeIfs(T, n)) THEN Fail(T, TErr)
-         ELSE Ok(RemoveNodeDeep(DisconnectAll(T, NodeIfs(T, n)), n))
+         ELSE IF TooManyPeers(T, WithSubs(T, NodeIfs(T, n))) THEN Fail(T, TErr)
+         ELSE Ok(RemoveNodeDeep(DisconnectAll(T, WithSubs(T, NodeIfs(T, n))), n))      \* "same as removing a node"
 
 SwitchEls(name, site, nports) ==
     LET nsn == name \o "-ns" nsp == Path(name, nsn)
@@ -533,6 +544,10 @@ Deviation(T, o, out, O) ==
          /\ (LET n == CHOOSE p \in Named(T, NN, o.name) \cap ViewNodes(T) : TRUE
              IN  O = RemoveNodeDeep(DisconnectAll(T, NodeIfs(T, n)), n)) /\ O # RemoveNode(T, o.name).st
             -> "RemovalLeavesSubInterfacePeerPort"       \* ports facing the node's SUB-interfaces are not disconnected
+      [] o.op = "RemoveFacility" /\ out = "ok" /\ Cardinality(Named(T, NN, o.name)) = 1
+         /\ (LET n == CHOOSE p \in Named(T, NN, o.name) : TRUE
+             IN  IsFacility(T, n) /\ O = RemoveNodeDeep(DisconnectAll(T, NodeIfs(T, n)), n)) /\ O # RemoveFacility(T, o.name).st
+            -> "RemovalLeavesSubInterfacePeerPort"
       [] o.op = "RemoveComponent" /\ out = "ok" /\ Has(T, o.n) /\ (\E c \in KidsOf(T, o.n, CO) : T.el[c].name = o.name)
          /\ (LET c == CHOOSE x \in KidsOf(T, o.n, CO) : T.el[x].name = o.name
              IN  O = RemoveComp(DisconnectAll(T, DirectIfs(T, c)), c)) /\ O # RemoveComponent(T, o.n, o.name).st
@@ -546,10 +561,18 @@ Deviation(T, o, out, O) ==
       [] o.op = "Connect" /\ out = "ok" /\ Has(T, o.s) /\ NameClash(T, o.s, o.i)
             -> "ServicePortNameCollision"                \* "<node>-<iface>" is not unique when sub-interfaces share names
       [] o.op = "AddService" /\ out = "ok" /\ AddService(T, o.name, o.nstype, o.ifs, o.site, Fn(o.rp)).out = TErr
-         /\ \E k \in 1..Len(o.ifs) : \E j \in 1..(k - 1) : Has(T, o.ifs[k]) /\ Has(T, o.ifs[j]) /\ o.ifs[k] # o.ifs[j]
-                /\ OwnerNode(T, o.ifs[k]) # "" /\ OwnerNode(T, o.ifs[j]) # ""
-                /\ T.el[OwnerNode(T, o.ifs[k])].name \o "-" \o T.el[o.ifs[k]].name
-                       = T.el[OwnerNode(T, o.ifs[j])].name \o "-" \o T.el[o.ifs[j]].name
+         /\ \/ \E k \in 1..Len(o.ifs) : \E j \in 1..(k - 1) : Has(T, o.ifs[k]) /\ Has(T, o.ifs[j]) /\ o.ifs[k] # o.ifs[j]
+                   /\ OwnerNode(T, o.ifs[k]) # "" /\ OwnerNode(T, o.ifs[j]) # ""
+                   /\ T.el[OwnerNode(T, o.ifs[k])].name \o "-" \o T.el[o.ifs[k]].name
+                          = T.el[OwnerNode(T, o.ifs[j])].name \o "-" \o T.el[o.ifs[j]].name
+            \* ... or with the link an EARLIER connection (of another service) made for a same-named sub-interface
+            \/ \E k \in 1..Len(o.ifs) : Has(T, o.ifs[k]) /\ OwnerNode(T, o.ifs[k]) # "" /\ Peers(T, o.ifs[k]) = {}
+                   /\ Has(T, LinkPath(T.el[OwnerNode(T, o.ifs[k])].name \o "-" \o T.el[o.ifs[k]].name \o "-link"))
+            -> "ServicePortNameCollision"
+      \* ... the call fails all the same, further down its interface list, with the outcome class met there
+      [] o.op = "AddService" /\ out # "ok" /\ O = T /\ ValidName(o.name) /\ Named(T, NS, o.name) = {}
+         /\ AddService(T, o.name, o.nstype, o.ifs, o.site, Fn(o.rp)).out = TErr
+         /\ out = FailsAsImpl([T EXCEPT !.el = Upd(T.el, SvcPath(o.name), SvcEl(o.name, o.nstype, o.site, Fn(o.rp)))], SvcPath(o.name), o.nstype, o.ifs)
             -> "ServicePortNameCollision"
       [] o.op = "Validate" /\ out = "ok" /\ Valid(T) /\ O # Inferred(T)
          /\ DOMAIN O.el = DOMAIN T.el /\ O.conn = T.conn
